@@ -182,6 +182,18 @@ CHECKS = {
     ),
 }
 
+TEXT_OVERRIDES = {
+ "C01": "Every array of the listed small shapes over a 3-value abstract alphabet is embedded at every dtype boundary (255/256, 65535/65536, 2^31, 2^32, 2^62, negatives next to signed boundaries) and crossed with every option combination (common omitted/each/absent, counts - the caller's own dict, which must stay intact -, five mappings incl. many-to-one, five read-backs, two input dtypes); a LAYOUT family adds Fortran-ordered, strided, reversed and uint64 inputs and zero-column shapes; a ROW-SCAN family (79-120 rows, >=5 values, <=5% uncommon cells at every slot subset, C and Fortran order, all-to-one mappings) reaches the second construction strategy on both sides of its threshold, confirmed by line coverage. 1.8M round trips in the quick tier.",
+ "C03": "Every data vector and every common value per dimension (0..3 dims, <=3-4 rows, 2-3 categories) is crossed with every call in a structured space: 4 aggregates x 2 policies x weights (none, scalars 2/0/NaN, arrays over {positive,0,missing}^N with dyadic and with decimal weights, (values,validity) forms) x facts (1-3 columns, 4 representations, missing patterns); the array cube is given int64 and int8 data with explicit shape and the unsigned dtype an index converts to with inferred shape; WIDE cubes (up to 65537 categories, strides and cell counts crossing and inside the upper half of the uint8/uint16 ranges, every narrow signed/unsigned dtype) are compared sparsely. ~0.9M library evaluations quick, ~50M thorough.",
+ "C08": "Exhaustive over every ordered pair of subsets of a 7/9-value universe and of a 6/8-value boundary universe (0, 2^31-1, 2^31, 2^32-1 ...), each pair as contiguous arrays and as non-contiguous (strided) views, for the three kernels and the None-aware wrappers; every (long contiguous run with at most one hole) x (1-2 sparse probes) pair in both orders (block-skipping optimisations); every list of 0..k subsets for the multi-way union. The kernels only compare elements and lengths, so all interleaving/exhaustion patterns within the bounds are decided, not sampled.",
+ "C11": "For every C10 input the saved bytes must equal an independent struct.pack encoder's bytes, an independent decoder must recover the input, and the library loader must recover it from independently encoded files in every admissible index/row-id word size (incl. 1- and 2-byte row-id words whose row-id count exceeds the word); saving with 1/2/8-byte row-id dtypes must either be refused or produce the documented layout; the size word is checked for row-id totals crossing 2^30 and 2^32 with sparse stand-in arrays. Symmetric writer/reader changes cannot hide.",
+ "C12": "Every file of the bounded family (plus four files of 4-17 KiB and the file of every initial state of the index state graph) is truncated at every byte position 0..len-1 (30M crash points in the quick tier) and IndxIO.load must raise for each; a load that returns is reported with (input, cut).",
+ "C14": "Every data vector and common value for 1..4 dimensions (N<=3, E=2; deeper in thorough), a LONG family (18-24 rows: a long run against sparse rows) and an EMPTY-ENTRY family are walked through interactions(), walk(f) and walk([f,g]); the delivered (coords, rows) multiset, read after the walk has finished, must equal the comprehension in the statement, so a missing, duplicated or later-overwritten combination cannot hide.",
+ "C15": "After every library-chosen normalisation in the fixpoint graph - and, beyond the graph, for shift_common()/filtered/append/collapsed on every array of the shapes (3,2), (4,2), (2,3), (5,) and for from_array with every mapping/counts option - the common value must be a most frequent value; every reached state must == its harness-built twin with != the exact negation; a == b iff (shape, common, dense) coincide over all pairs in small shape buckets, all neighbour pairs in large ones and three single-component variants of every state; every state compared with nine kinds of non-index operands incl. same-key plain dicts is unequal.",
+ "C18": "Every data vector (D<=2, N<=4-5) is crossed with missing patterns, weight patterns (incl. single zero weights and (0-filled, validity) weights for the quantile's missing rule), policies and both report formats for stddev (also on a large-offset and a constant-decimal column against an exact rational oracle), quantile (7 probabilities; weighted: three relations), min/max over float/int/datetime facts (validity pair and NaT-marked), covariance and correlation; int8/int16/uint8 dimension arrays on 200- and 40000-cell cubes; each cell is compared with the statistic computed from its own rows.",
+ "C20": "Serial: every invocation index of the interrupt callback (and pairs) on cubes with 1,2,3,4,6,8 sub-cubes of both types incl. all-common slices; pooled: every subset of invocation ordinals (singletons/first+last/all for 8 sub-cubes) crossed with every schedule up to the preemption bound. calculate must raise one of the very objects raised, the callback must be consulted once per sub-cube when nothing is interrupted (never more than once otherwise), and re-evaluating the same cube and aggregate objects afterwards - pooled and serially - must equal a fresh evaluation bit-for-bit."
+}
+
 NOT_YET = "check not built yet (work in progress in this session; see DESIGN.md section 11 for order)"
 
 ALL = ["C%02d" % i for i in range(1, 21)]
@@ -193,6 +205,7 @@ def main():
         if pid not in CHECKS:
             continue
         level, engine, tech, text, note, ref = CHECKS[pid]
+        text = TEXT_OVERRIDES.get(pid, text)
         checks.append({
             "property_id": pid,
             "quick_cmd": "./check %s --tier quick" % pid,
